@@ -80,7 +80,7 @@ fn add_hostile(n: &mut Node, u: &mut Un) {
             }
             add_hostile(n, u);
         }
-        Node::Pure(_) | Node::Fail(_) => {}
+        Node::Pure(_) | Node::Fail(_) | Node::Any(_) => {}
         Node::Seq(xs) | Node::Alt(xs) | Node::Adjacent(xs) => {
             for x in xs {
                 add_hostile(x, u);
